@@ -325,7 +325,15 @@ def run(ck):
           "pushed only for a method other than the request's (%s) whose tree returns a route (%s)" % (ok_skip, ok_match))
     # the terminal route handler is invoked with the bindings of the lookup
     ih = [e for e in g.events("call") if terminal(e) == "route"]
-    ok = bool(ih) and "params" in (ih[0].get("t") or "") and "splats" in (ih[0].get("t") or "")
+    # the handler's request carries both binding lists of the lookup: locals initialised from std::get<1> / std::get<2> of the result
+    # (whatever they are called), or those expressions in place
+    def from_get(n_):
+        vs = {d_["var"] for d_ in g.events("decl") if d_.get("var") and re.search(r"get<%d>\(" % n_, (d_.get("init") or {}).get("t") or "")}
+        return lib.derived_vars(g, vs) if vs else set()
+    t_ih = (ih[0].get("t") or "") if ih else ""
+    has1 = bool(re.search(r"get<1>\(", t_ih)) or any(re.search(r"\b%s\b" % re.escape(v_), t_ih) for v_ in from_get(1))
+    has2 = bool(re.search(r"get<2>\(", t_ih)) or any(re.search(r"\b%s\b" % re.escape(v_), t_ih) for v_ in from_get(2))
+    ok = bool(ih) and has1 and has2
     ck.ob("C10-R3", "route/handler-gets-bindings", ok, ih[0].loc if ih else g.loc, g, "invokeHandler(Request(req, params, splats), resp)", nontrivial=False)
 
     # ---------------- R4 ----------------
